@@ -38,13 +38,29 @@ func (c *Client) cancelQuery() error {
 	proto.ClientCodeCancel.Encode(&b)
 
 	var retErr error
-	if err := c.flushBuf(ctx, &b); err != nil {
-		retErr = errors.Join(retErr, errors.Wrap(err, "flush"))
+	// The write deadline that flushBuf sets is a property of the connection and
+	// can be reset concurrently by the flush of the sending goroutine, so it
+	// can't bound this write on its own: if the peer has stopped reading, give
+	// up after the deadline and let Close unblock the write.
+	flushed := make(chan error, 1)
+	go func() { flushed <- c.flushBuf(ctx, &b) }()
+	select {
+	case err := <-flushed:
+		flushed = nil
+		if err != nil {
+			retErr = errors.Join(retErr, errors.Wrap(err, "flush"))
+		}
+	case <-ctx.Done():
+		retErr = errors.Join(retErr, errors.Wrap(ctx.Err(), "flush"))
 	}
 
 	// Always close connection to prevent further queries.
 	if err := c.Close(); err != nil {
 		retErr = errors.Join(retErr, errors.Wrap(err, "close"))
+	}
+	if flushed != nil {
+		// The write returns as soon as the connection is closed.
+		<-flushed
 	}
 
 	return retErr
